@@ -29,6 +29,7 @@ type Violation struct {
 	Property string          `json:"property"`
 	Key      string          `json:"key"`
 	What     string          `json:"what"`
+	History  bool            `json:"history,omitempty"` // the case fails only after the cases of its unit that precede it have run in the same process
 	Tier     Tier            `json:"tier,omitempty"`
 	Unit     int             `json:"unit"`
 	Ordinal  int64           `json:"ordinal"`
@@ -82,13 +83,14 @@ type Ctx struct {
 
 	deadline time.Time
 	only     int64 // when >= 0: run only this ordinal of the unit
+	upto     int64 // when >= 0: run the unit's cases up to and including this ordinal, then stop (history replay)
 	ckpt     []byte
 	replay   bool
 	stopped  bool
 }
 
 func NewCtx(p *Prop, t Tier, seed int64) *Ctx {
-	return &Ctx{Prop: p, Tier: t, Seed: seed, only: -1,
+	return &Ctx{Prop: p, Tier: t, Seed: seed, only: -1, upto: -1,
 		States: map[string]bool{}, Nontrivial: map[string]bool{}, Outcomes: map[string]int64{}, Notes: map[string]int64{}}
 }
 
@@ -134,6 +136,10 @@ func (c *Ctx) Expired() bool {
 func (c *Ctx) skip() bool {
 	c.Ordinal++
 	if c.only >= 0 && c.Ordinal-1 != c.only {
+		return true
+	}
+	if c.upto >= 0 && c.Ordinal-1 > c.upto {
+		c.stopped = true
 		return true
 	}
 	if c.ckpt != nil {
